@@ -33,6 +33,7 @@ type cliIn struct {
 	Filter int      `json:"filter"` // which frames to generate: 0 tcp replies with any flags, 1 SYN+ACK-centred, 2 icmp, 3 arp
 	Ports  bool     `json:"ports"`  // the command takes -p
 	Tun    bool     `json:"tun"`    // run on the tun device (VPN mode)
+	Chunks bool     `json:"chunks"` // 201 port ranges = two chunks of startPortScanEngine; the replies belong to the FIRST chunk
 	// replay only
 	Subnet string   `json:"subnet,omitempty"`
 	PortsL [][2]int `json:"portlist,omitempty"`
@@ -98,7 +99,13 @@ func runCLI(id int, in cliIn, r *hlib.SplitMix64, ifa *net.Interface, inj inject
 		// a /28 inside the interface's /24, away from the interface address
 		base := myNet.IP.To4()
 		c.Subnet = fmt.Sprintf("%d.%d.%d.%d/28", base[0], base[1], base[2], 16+16*r.Intn(12))
-		if in.Ports {
+		if in.Chunks {
+			// 201 single-port ranges: startPortScanEngine scans the first 200 with one engine + filter, then the last one
+			p0 := 1000 + r.Intn(30000)
+			for j := 0; j < 201; j++ {
+				c.Ports = append(c.Ports, [2]int{p0 + 3*j, p0 + 3*j})
+			}
+		} else if in.Ports {
 			for j := 1 + r.Intn(3); j > 0; j-- {
 				a := 1 + r.Intn(65000)
 				c.Ports = append(c.Ports, [2]int{a, a + r.Intn(3)})
@@ -109,6 +116,10 @@ func runCLI(id int, in cliIn, r *hlib.SplitMix64, ifa *net.Interface, inj inject
 		c.Ports = [][2]int{}
 	}
 	g.SetRange(c.Subnet, c.Ports)
+	if in.Chunks && len(c.Ports) > 200 {
+		// replies (and sentinels) come from ports of the first chunk, some of them from its last ranges
+		g.SetRange(c.Subnet, [][2]int{c.Ports[0], c.Ports[100], c.Ports[198], c.Ports[199]})
+	}
 	rng := lib.BuildRange(c.Subnet, c.Ports)
 	ip4 := rng.DstSubnet.IP.To4()
 	c.Net = int64(ip4[0])<<24 | int64(ip4[1])<<16 | int64(ip4[2])<<8 | int64(ip4[3])
@@ -237,6 +248,10 @@ func runCLI(id int, in cliIn, r *hlib.SplitMix64, ifa *net.Interface, inj inject
 				o.Sent = inj.WritePacketData(f) == nil
 			}
 			c.Frames = append(c.Frames, o)
+		}
+		if in.Chunks {
+			// the probes of the first chunk are long out: what follows arrives within its exit delay
+			time.Sleep(400 * time.Millisecond)
 		}
 		if !waitFor(sb, ipB, true) && c.Err == "" {
 			c.Err = "second-sentinel-not-reported"
